@@ -923,8 +923,9 @@ class WorkflowConductor(object):
         machines.TaskStateMachine.process_event(self.workflow_state, task_state_entry, event)
         new_task_status = task_state_entry.get("status", statuses.UNSET)
 
-        # If retrying, staged the task to be returned in get_next_tasks.
-        if new_task_status == statuses.RETRYING:
+        # If retrying, staged the task to be returned in get_next_tasks. A report that leaves a
+        # retrying task as it is does not count as another retry.
+        if new_task_status == statuses.RETRYING and new_task_status != old_task_status:
             # Increment the number of times that the task has retried.
             task_state_entry["retry"]["tally"] += 1
 
